@@ -83,12 +83,14 @@ class PathSummary:
 
 
 class MapperLab:
-    def __init__(self, chk):
+    def __init__(self, chk, invariant=True):
+        """invariant=False: page-table slots hold arbitrary 64-bit values (not only all-zero or PRESENT ones)"""
         self.chk = chk
         I = chk.new_interp()
         self.I = I
         I.object_factory = lambda p: table_val(p.key())
-        I.refine_hook = self._hook
+        if invariant:
+            I.refine_hook = self._hook
         I.models[TBL + '::zero'] = self._m_zero
 
     # ---- interpreter hooks
